@@ -7,13 +7,13 @@ namespace DarkluaModel.Sem.HeapU
 variable {Q : QRel} {cx : Cx} {D : List DName}
 
 theorem RRel.loopEnd {N : NumOps} {β β0 : Inj N} {env env' : Env N} {r r' : Option (List (Val N))} {σ σ' : State N}
-    (he : EnvOK β0 D env env') (hle : β0.le β) (hr : AOVs β r r') (h : SRel Q cx β σ σ') :
-    RRel Q cx β (ACtlS D)
+    (he : EnvOK cx β0 D env env') (hle : β0.le β) (hr : AOVs β r r') (h : SRel Q cx β σ σ') :
+    RRel Q cx β (ACtlS cx D)
       (match (generalizing := false) r with | some rv => (Res.ok (Ctl.ret rv) σ : Res N (Ctl N)) | none => .ok (.next env) σ)
       (match (generalizing := false) r' with | some rv => .ok (.ret rv) σ' | none => .ok (.next env') σ') := by
   cases r <;> cases r' <;> simp only [AOVs, OptRel] at hr
-  · exact RRel.ok (A := ACtlS D) (he.mono hle) h
-  · exact RRel.ok (A := ACtlS D) hr h
+  · exact RRel.ok (A := ACtlS cx D) (he.mono hle) h
+  · exact RRel.ok (A := ACtlS cx D) hr h
 
 theorem SoundS.assign {ts ts' vs vs'} (iht : SoundTs Q cx D ts ts') (ihv : SoundEs Q cx D vs vs') :
     SoundS Q cx D (.assign ts vs) (.assign ts' vs') := by
@@ -24,10 +24,10 @@ theorem SoundS.assign {ts ts' vs vs'} (iht : SoundTs Q cx D ts ts') (ihv : Sound
   refine RRel.bind (ihv N call ρ k env env' _ _ _ hp h (he.mono h1)) fun β2 h2 _ _ hv _ _ h => ?_
   refine RRel.bind (storeTargets_param hp.call hp.flat _ ((he.mono h1).mono h2).2
     (Forall2.imp (fun _ _ => TgRel.mono h2) hrel) hok hv h) fun β3 h3 _ _ _ _ _ h => ?_
-  exact RRel.ok (A := ACtlS D) (((he.mono h1).mono h2).mono h3) h
+  exact RRel.ok (A := ACtlS cx D) (((he.mono h1).mono h2).mono h3) h
 
 theorem oldVal_rel {N : NumOps} {call : CallFn N} {ρ : ExtOracle N} {k : Nat} {env env' : Env N} {β : Inj N}
-    (hp : POK Q cx call ρ k) (he : EnvOK β D env env') {tg tg' : Target N} (ht : TgRel β tg tg')
+    (hp : POK Q cx call ρ k) (he : EnvOK cx β D env env') {tg tg' : Target N} (ht : TgRel β tg tg')
     {s s' : State N} (h : SRel Q cx β s s') : TargetOK D tg →
     RRel Q cx β AV (match (generalizing := false) tg with
         | .var n => (Res.ok (lookupVar env n s) s : Res N (Val N))
@@ -37,7 +37,7 @@ theorem oldVal_rel {N : NumOps} {call : CallFn N} {ρ : ExtOracle N} {k : Nat} {
         | .slot t key => indexVal call ρ k t key s') := by
   intro hok
   cases tg <;> cases tg' <;> simp only [TgRel] at ht
-  · subst ht; exact RRel.ok (A := AV) (h.lookupVar he.loc hok) h
+  · subst ht; exact RRel.ok (A := AV) (h.lookupVar he.loc hok.1) h
   · exact indexVal_param hp.call hp.flat _ ht.1 ht.2 h
 
 theorem SoundS.cassign {op t t' v v'} (iht : SoundT Q cx D t t') (ihv : SoundE Q cx D v v') :
@@ -54,13 +54,13 @@ theorem SoundS.cassign {op t t' v v'} (iht : SoundT Q cx D t t') (ihv : SoundE Q
   have he4 := ((he1.mono h2).mono h3).mono h4
   refine RRel.bind (storeTarget_param hp.call hp.flat _ he4.loc
     (hrel.mono (Inj.le_trans h2 (Inj.le_trans h3 h4))) hok hnv h) fun β5 h5 _ _ _ _ _ h => ?_
-  exact RRel.ok (A := ACtlS D) (he4.mono h5) h
+  exact RRel.ok (A := ACtlS cx D) (he4.mono h5) h
 
 theorem SoundS.callStmt {c c'} (ih : SoundE Q cx D c c') : SoundS Q cx D (.callStmt c) (.callStmt c') := by
   intro N call ρ k env env' σ σ' β hp hs he
   simp only [execS]
   exact RRel.bind (ih N call ρ k env env' σ σ' β hp hs he) fun _ h1 _ _ _ _ _ h =>
-    RRel.ok (A := ACtlS D) (he.mono h1) h
+    RRel.ok (A := ACtlS cx D) (he.mono h1) h
 
 theorem SoundS.doBlock {b b' D'} (ih : SoundB Q cx D b b' D') : SoundS Q cx D (.doBlock b) (.doBlock b') := by
   intro N call ρ k env env' σ σ' β hp hs he
@@ -71,10 +71,10 @@ theorem SoundS.doBlock {b b' D'} (ih : SoundB Q cx D b b' D') : SoundS Q cx D (.
 open Heap (addSelf)
 
 theorem function_tail {N : NumOps} {call : CallFn N} {ρ : ExtOracle N} {k : Nat} {env env' : Env N} {β : Inj N}
-    (hp : POK Q cx call ρ k) (he : EnvOK β D env env') {σ σ' : State N} (hs : SRel Q cx β σ σ')
+    (hp : POK Q cx call ρ k) (he : EnvOK cx β D env env') {σ σ' : State N} (hs : SRel Q cx β σ σ')
     (name : List String) (m : Option String) (F F' : FnBody) (hF : Q D F F') :
-    (∀ r, name.head? = some r → DName.ref r ∉ D) →
-    RRel Q cx β (ACtlS D)
+    (∀ r, name.head? = some r → DName.ref r ∉ D ∧ DName.wat r ∉ D) →
+    RRel Q cx β (ACtlS cx D)
       (match name, m with
         | [n], none => (Res.ok (Ctl.next env) (assignVar env n (.fn (σ.allocClosure ⟨F, env.locals, []⟩).1)
             (σ.allocClosure ⟨F, env.locals, []⟩).2) : Res N (Ctl N))
@@ -105,14 +105,14 @@ theorem function_tail {N : NumOps} {call : CallFn N} {ρ : ExtOracle N} {k : Nat
     exact .inr ⟨rfl, rfl⟩
   refine RRel.mono hle ?_
   split
-  · exact RRel.ok (A := ACtlS D) he1 (ha.assignVar he1.loc (hroot _ rfl) hid)
-  · exact RRel.bind (walkFields_param hp.call hp.flat _ (ha.lookupVar he1.loc (hroot _ rfl)) _ ha)
+  · exact RRel.ok (A := ACtlS cx D) he1 (ha.assignVar he1.loc (hroot _ rfl).1 (hroot _ rfl).2 hid)
+  · exact RRel.bind (walkFields_param hp.call hp.flat _ (ha.lookupVar he1.loc (hroot _ rfl).1) _ ha)
       fun β1 h1 p p' hpq _ _ h =>
         RRel.bind (setIndexVal_param hp.call hp.flat _ hpq.1 (by rw [hpq.2]; simp only [strVal, VRel]) (hid.mono h1) h)
-          fun β2 h2 _ _ _ _ _ h => RRel.ok (A := ACtlS D) ((he1.mono h1).mono h2) h
+          fun β2 h2 _ _ _ _ _ h => RRel.ok (A := ACtlS cx D) ((he1.mono h1).mono h2) h
   · exact RRel.errS ha
 
-theorem SoundS.function {name m f f'} (hroot : ∀ r, name.head? = some r → DName.ref r ∉ D)
+theorem SoundS.function {name m f f'} (hroot : ∀ r, name.head? = some r → DName.ref r ∉ D ∧ DName.wat r ∉ D)
     (hf : Q D (addSelf m f) (addSelf m f')) : SoundS Q cx D (.function name m f) (.function name m f') := by
   intro N call ρ k env env' σ σ' β hp hs he
   cases m with
@@ -123,7 +123,7 @@ theorem SoundS.function {name m f f'} (hroot : ∀ r, name.head? = some r → DN
     exact function_tail hp he hs name (some mm) _ _ hf hroot
 
 theorem SoundS.gfor {ns ns' vs vs' b b' D'} (hn : ns.map TName.name = ns'.map TName.name)
-    (ihv : SoundEs Q cx D vs vs') (ihb : SoundB Q cx D b b' D') : SoundS Q cx D (.gfor ns vs b) (.gfor ns' vs' b') := by
+    (hw : ∀ n ∈ ns'.map TName.name, DName.wat n ∉ D) (ihv : SoundEs Q cx D vs vs') (ihb : SoundB Q cx D b b' D') : SoundS Q cx D (.gfor ns vs b) (.gfor ns' vs' b') := by
   intro N call ρ k env env' σ σ' β hp hs he
   simp only [execS, hn]
   refine RRel.bind (ihv N call ρ k env env' σ σ' β hp hs he) fun β1 h1 vals vals' hv _ _ h => ?_
@@ -134,9 +134,9 @@ theorem SoundS.gfor {ns ns' vs vs' b b' D'} (hn : ns.map TName.name = ns'.map TN
     exact callVal_param hp.call hp.flat _ ((VRel.first hv).mono h2)
       (.cons ((VRel.first (hv.drop 1)).mono h2) (.cons hc .nil)) h
   · intro β2 h2 rs rs' hrs s s' h
-    obtain ⟨β3, h3, hs3, he3⟩ := h.bindLocals (ns'.map TName.name) hrs (he1.mono h2).loc
+    obtain ⟨β3, h3, hs3, he3⟩ := h.bindLocals (ns'.map TName.name) hw hrs (he1.mono h2).loc
     refine RRel.mono h3 ?_
-    have he4 : EnvOK β3 D { env with locals := (bindLocals (ns'.map TName.name) rs env.locals s).1 }
+    have he4 : EnvOK cx β3 D { env with locals := (bindLocals (ns'.map TName.name) rs env.locals s).1 }
         { env' with locals := (bindLocals (ns'.map TName.name) rs' env'.locals s').1 } :=
       ⟨((he1.mono h2).mono h3).va, he3⟩
     exact (ihb.2 N call ρ k _ _ _ _ _ hp hs3 he4).mapA fun _ _ _ _ ha => ha.shape
@@ -144,11 +144,12 @@ theorem SoundS.gfor {ns ns' vs vs' b b' D'} (hn : ns.map TName.name = ns'.map TN
   · exact h
 
 theorem nfor_tail {N : NumOps} {call : CallFn N} {ρ : ExtOracle N} {k : Nat} {env env' : Env N} {β : Inj N}
-    (hp : POK Q cx call ρ k) (he : EnvOK β D env env')
-    {n n' : TName} {body body' : Block} {D' : List DName} (hn : n.name = n'.name) (ihbody : SoundB Q cx D body body' D')
+    (hp : POK Q cx call ρ k) (he : EnvOK cx β D env env')
+    {n n' : TName} {body body' : Block} {D' : List DName} (hn : n.name = n'.name) (hw : DName.wat n'.name ∉ D)
+    (ihbody : SoundB Q cx D body body' D')
     {a a' b b' c c' : List (Val N)} (ha : VsRel β a a') (hb : VsRel β b b') (hc : VsRel β c c')
     {σ σ' : State N} (h : SRel Q cx β σ σ') :
-    RRel Q cx β (ACtlS D)
+    RRel Q cx β (ACtlS cx D)
       (match toNumber? (first a), toNumber? (first b), toNumber? (first c) with
         | some x, some y, some z =>
           (forLoop (fun i σ =>
@@ -177,41 +178,41 @@ theorem nfor_tail {N : NumOps} {call : CallFn N} {ρ : ExtOracle N} {k : Nat} {e
       have hal := h.allocCell (v := .num i) (v' := .num i) rfl
       refine RRel.mono h.le_extC ?_
       rw [hn]
-      have he3 : EnvOK (extC β2 s.cells.length s'.cells.length) D
+      have he3 : EnvOK cx (extC β2 s.cells.length s'.cells.length) D
           { env with locals := (n'.name, (s.allocCell (.num i)).1) :: env.locals }
           { env' with locals := (n'.name, (s'.allocCell (.num i)).1) :: env'.locals } :=
-        ⟨((he.mono h2).mono h.le_extC).va, ((he.mono h2).loc.mono h.le_extC).cons _ (.inr ⟨rfl, rfl⟩)⟩
+        ⟨((he.mono h2).mono h.le_extC).va, ((he.mono h2).loc.mono h.le_extC).cons _ hw (.inr ⟨rfl, rfl⟩)⟩
       exact (ihbody.2 N call ρ k _ _ _ _ _ hp hal he3).mapA fun _ _ _ _ ha => ha.shape
     · exact h
   · exact RRel.errS h
 
 theorem SoundS.nforNone {n n' a a' b b' body body' D'} (hn : TName.name n = TName.name n')
-    (iha : SoundE Q cx D a a') (ihb : SoundE Q cx D b b') (ihbody : SoundB Q cx D body body' D') :
+    (hw : DName.wat n'.name ∉ D) (iha : SoundE Q cx D a a') (ihb : SoundE Q cx D b b') (ihbody : SoundB Q cx D body body' D') :
     SoundS Q cx D (.nfor n a b none body) (.nfor n' a' b' none body') := by
   intro N call ρ k env env' σ σ' β hp hs he
   simp only [execS]
   exact RRel.bind (iha N call ρ k env env' σ σ' β hp hs he) fun β1 h1 _ _ hva _ _ h =>
     RRel.bind (ihb N call ρ k env env' _ _ _ hp h (he.mono h1)) fun β2 h2 _ _ hvb _ _ h =>
       RRel.bind (RRel.okOne (show VRel β2 (.num (N.ofNat 1)) (.num (N.ofNat 1)) from rfl) h) fun β3 h3 _ _ hvc _ _ h =>
-        nfor_tail hp (((he.mono h1).mono h2).mono h3) hn ihbody (hva.mono (Inj.le_trans h2 h3)) (hvb.mono h3) hvc h
+        nfor_tail hp (((he.mono h1).mono h2).mono h3) hn hw ihbody (hva.mono (Inj.le_trans h2 h3)) (hvb.mono h3) hvc h
 
 theorem SoundS.nforSome {n n' a a' b b' st st' body body' D'} (hn : TName.name n = TName.name n')
-    (iha : SoundE Q cx D a a') (ihb : SoundE Q cx D b b') (ihst : SoundE Q cx D st st') (ihbody : SoundB Q cx D body body' D') :
+    (hw : DName.wat n'.name ∉ D) (iha : SoundE Q cx D a a') (ihb : SoundE Q cx D b b') (ihst : SoundE Q cx D st st') (ihbody : SoundB Q cx D body body' D') :
     SoundS Q cx D (.nfor n a b (some st) body) (.nfor n' a' b' (some st') body') := by
   intro N call ρ k env env' σ σ' β hp hs he
   simp only [execS]
   exact RRel.bind (iha N call ρ k env env' σ σ' β hp hs he) fun β1 h1 _ _ hva _ _ h =>
     RRel.bind (ihb N call ρ k env env' _ _ _ hp h (he.mono h1)) fun β2 h2 _ _ hvb _ _ h =>
       RRel.bind (ihst N call ρ k env env' _ _ _ hp h ((he.mono h1).mono h2)) fun β3 h3 _ _ hvc _ _ h =>
-        nfor_tail hp (((he.mono h1).mono h2).mono h3) hn ihbody (hva.mono (Inj.le_trans h2 h3)) (hvb.mono h3) hvc h
+        nfor_tail hp (((he.mono h1).mono h2).mono h3) hn hw ihbody (hva.mono (Inj.le_trans h2 h3)) (hvb.mono h3) hvc h
 
 theorem SoundS.ifsNone {brs brs'} (ih : SoundBranches Q cx D brs brs') : SoundS Q cx D (.ifs brs none) (.ifs brs' none) := by
   intro N call ρ k env env' σ σ' β hp hs he
   simp only [execS]
   refine RRel.bind (ih N call ρ k env env' σ σ' β hp hs he) fun β1 h1 r r' hr _ _ h => ?_
   cases r <;> cases r' <;> simp only [AOCtlS] at hr
-  · exact RRel.ok (A := ACtlS D) (he.mono h1) h
-  · exact RRel.ok (A := ACtlS D) hr h
+  · exact RRel.ok (A := ACtlS cx D) (he.mono h1) h
+  · exact RRel.ok (A := ACtlS cx D) hr h
 
 theorem SoundS.ifsSome {brs brs' b b' D'} (ih : SoundBranches Q cx D brs brs') (ihb : SoundB Q cx D b b' D') :
     SoundS Q cx D (.ifs brs (some b)) (.ifs brs' (some b')) := by
@@ -221,29 +222,29 @@ theorem SoundS.ifsSome {brs brs' b b' D'} (ih : SoundBranches Q cx D brs brs') (
   cases r <;> cases r' <;> simp only [AOCtlS] at hr
   · exact RRel.bind (ihb.2 N call ρ k env env' _ _ _ hp h (he.mono h1)) fun β2 h2 c c' hcc _ _ h =>
       RRel.blockEnd (he.mono h1) h2 h hcc
-  · exact RRel.ok (A := ACtlS D) hr h
+  · exact RRel.ok (A := ACtlS cx D) hr h
 
 theorem SoundS.localAssign {kind kind' ns ns' vs vs'} (hn : ns.map TName.name = ns'.map TName.name)
-    (ihv : SoundEs Q cx D vs vs') : SoundS Q cx D (.localAssign kind ns vs) (.localAssign kind' ns' vs') := by
+    (hw : ∀ n ∈ ns'.map TName.name, DName.wat n ∉ D) (ihv : SoundEs Q cx D vs vs') : SoundS Q cx D (.localAssign kind ns vs) (.localAssign kind' ns' vs') := by
   intro N call ρ k env env' σ σ' β hp hs he
   simp only [execS, hn]
   refine RRel.bind (ihv N call ρ k env env' σ σ' β hp hs he) fun β1 h1 vals vals' hv s s' h => ?_
-  obtain ⟨β2, h2, hs2, he2⟩ := h.bindLocals (ns'.map TName.name) hv (he.mono h1).loc
-  exact RRel.mono h2 (RRel.ok (A := ACtlS D) ⟨((he.mono h1).mono h2).va, he2⟩ hs2)
+  obtain ⟨β2, h2, hs2, he2⟩ := h.bindLocals (ns'.map TName.name) hw hv (he.mono h1).loc
+  exact RRel.mono h2 (RRel.ok (A := ACtlS cx D) ⟨((he.mono h1).mono h2).va, he2⟩ hs2)
 
-theorem SoundS.localFn {kind kind' name f f'} (hf : Q D f f') :
+theorem SoundS.localFn {kind kind' name f f'} (hw : DName.wat name ∉ D) (hf : Q D f f') :
     SoundS Q cx D (.localFn kind name f) (.localFn kind' name f') := by
   intro N call ρ k env env' σ σ' β hp hs he
   simp only [execS]
   have h1 := hs.allocCell (v := .nil) (v' := .nil) trivial
   have hle1 := hs.le_extC
   have hnew : (extC β σ.cells.length σ'.cells.length).c (σ.allocCell .nil).1 (σ'.allocCell .nil).1 := .inr ⟨rfl, rfl⟩
-  have he1 : EnvRel (extC β σ.cells.length σ'.cells.length) D ((name, (σ.allocCell .nil).1) :: env.locals)
-      ((name, (σ'.allocCell .nil).1) :: env'.locals) := (he.loc.mono hle1).cons _ hnew
+  have he1 : EnvRel cx (extC β σ.cells.length σ'.cells.length) D ((name, (σ.allocCell .nil).1) :: env.locals)
+      ((name, (σ'.allocCell .nil).1) :: env'.locals) := (he.loc.mono hle1).cons _ hw hnew
   have h2 := h1.allocClosure (c := ⟨f, (name, (σ.allocCell .nil).1) :: env.locals, []⟩)
     (c' := ⟨f', (name, (σ'.allocCell .nil).1) :: env'.locals, []⟩) ⟨.nil, D, hf, he1⟩
   have hle2 := h1.le_extF
-  refine RRel.mono (Inj.le_trans hle1 hle2) (RRel.ok (A := ACtlS D) ⟨(he.mono (Inj.le_trans hle1 hle2)).va, he1.mono hle2⟩ ?_)
+  refine RRel.mono (Inj.le_trans hle1 hle2) (RRel.ok (A := ACtlS cx D) ⟨(he.mono (Inj.le_trans hle1 hle2)).va, he1.mono hle2⟩ ?_)
   exact h2.setCell (hle2.c _ _ hnew) (show (extF _ _ _).f _ _ from .inr ⟨rfl, rfl⟩)
 
 /-- a `repeat` iteration from its body (as an open block) and its condition -/
@@ -251,8 +252,8 @@ theorem SoundRep.mk {b b' c c' D'} (ihb : SoundB Q cx D b b' D') (ihc : SoundE Q
   intro N call ρ k env env' σ σ' β hp hs he
   simp only [repeatStep_eq_execB]
   refine RRel.bind (ihb.2 N call ρ k env env' σ σ' β hp hs he) fun β1 h1 ctl ctl' hcc _ _ h => ?_
-  have fin : ∀ (e e' : Env N), EnvOK β1 D' e e' → ∀ s s', SRel Q cx β1 s s' →
-      RRel Q cx β1 (AOCtlS D)
+  have fin : ∀ (e e' : Env N), EnvOK cx β1 D' e e' → ∀ s s', SRel Q cx β1 s s' →
+      RRel Q cx β1 (AOCtlS cx D)
         ((evalE call ρ k e c s).bind fun cv σ3 =>
           if (first cv).truthy then (Res.ok (some Ctl.brk) σ3 : Res N (Option (Ctl N)))
           else .ok (some (.next env)) σ3)
@@ -262,16 +263,16 @@ theorem SoundRep.mk {b b' c c' D'} (ihb : SoundB Q cx D b b' D') (ihc : SoundE Q
     refine RRel.bind (ihc N call ρ k e e' s s' β1 hp hss hee) fun β2 h2 _ _ hv _ _ h => ?_
     rw [VRel.truthy (VRel.first hv)]
     split
-    · exact RRel.ok (A := AOCtlS D) (show AOCtlS D β2 (some .brk) (some .brk) from trivial) h
-    · exact RRel.ok (A := AOCtlS D) (show AOCtlS D β2 (some (.next env)) (some (.next env')) from
+    · exact RRel.ok (A := AOCtlS cx D) (show AOCtlS cx D β2 (some .brk) (some .brk) from trivial) h
+    · exact RRel.ok (A := AOCtlS cx D) (show AOCtlS cx D β2 (some (.next env)) (some (.next env')) from
         (he.mono h1).mono h2) h
   cases ctl <;> cases ctl' <;> simp only [ACtl] at hcc
   · exact fin _ _ hcc _ _ h
-  · exact RRel.ok (A := AOCtlS D) (show AOCtlS D β1 (some .brk) (some .brk) from trivial) h
+  · exact RRel.ok (A := AOCtlS cx D) (show AOCtlS cx D β1 (some .brk) (some .brk) from trivial) h
   · exact fin _ _ hcc _ _ h
-  · exact RRel.ok (A := AOCtlS D) (show AOCtlS D β1 (some (.ret _)) (some (.ret _)) from hcc) h
+  · exact RRel.ok (A := AOCtlS cx D) (show AOCtlS cx D β1 (some (.ret _)) (some (.ret _)) from hcc) h
 
-theorem AOCtlS.shape {N : NumOps} {β : Inj N} {c c' : Option (Ctl N)} (h : AOCtlS D β c c') : OCtlShape β c c' := by
+theorem AOCtlS.shape {N : NumOps} {β : Inj N} {c c' : Option (Ctl N)} (h : AOCtlS cx D β c c') : OCtlShape β c c' := by
   cases c <;> cases c' <;> simp only [AOCtlS, OCtlShape] at h ⊢
   exact h.shape
 
@@ -300,9 +301,9 @@ theorem SoundS.while_ {b b' c c' D'} (ihc : SoundE Q cx D c c') (ihb : SoundB Q 
   · exact hs
 
 theorem SoundS.typeDecl {ex ex' name name' ty ty'} : SoundS Q cx D (.typeDecl ex name ty) (.typeDecl ex' name' ty') := by
-  intro N call ρ k env env' σ σ' β hp hs he; simp only [execS]; exact RRel.ok (A := ACtlS D) he hs
+  intro N call ρ k env env' σ σ' β hp hs he; simp only [execS]; exact RRel.ok (A := ACtlS cx D) he hs
 
 theorem SoundS.typeFn {ex ex' name name' f f'} : SoundS Q cx D (.typeFn ex name f) (.typeFn ex' name' f') := by
-  intro N call ρ k env env' σ σ' β hp hs he; simp only [execS]; exact RRel.ok (A := ACtlS D) he hs
+  intro N call ρ k env env' σ σ' β hp hs he; simp only [execS]; exact RRel.ok (A := ACtlS cx D) he hs
 
 end DarkluaModel.Sem.HeapU
